@@ -8,6 +8,7 @@ import CBV.Lemmas.C05
 import Mathlib.Tactic.Ring
 import Mathlib.Tactic.NormNum
 import Mathlib.Algebra.Order.Field.Rat
+import CBV.Gen.TC05
 
 set_option linter.unusedSectionVars false
 
